@@ -267,6 +267,85 @@ def h_def_limit(ctx):
     return Outcome(f"def:{cls}:{'ok' if not vs else 'bad'}", vs, nontrivial=(alg, enc, form, cls, n))
 
 
+# ------------------------------------------------------------------ one header dict / one encryption object used more than once
+SEQ_ALGS = [("ECDH-ES", "P-256"), ("ECDH-ES+A128KW", "X25519"), ("ECDH-ES+A256KW", "P-384"), ("A128GCMKW", "oct16"), ("PBES2-HS256+A128KW", "oct20"),
+            ("ECDH-1PU", "X25519"), ("ECDH-1PU+A128KW", "P-256"), ("A128KW", "oct16"), ("RSA-OAEP", "rsa"), ("dir", "oct")]
+SEQ_STEPS = ["compact", "flattened", "general", "general-2-recipients", "decrypt-then-encrypt-the-returned-object"]
+
+
+def h_again(ctx):
+    """The caller keeps its header dict (the library writes the members it generates - epk, iv/tag, p2s/p2c - into it) and uses it for
+    a second and third encryption in the same or another serialization, or re-encrypts the object a decryption returned: every
+    token decrypts to the plaintext, under joserfc and under the reference."""
+    from joserfc import jwe
+    scen.register_drafts()
+    alg, kind0 = ctx.choose("alg/key", SEQ_ALGS)
+    enc = ctx.choose("enc", ["A128CBC-HS256", "A128GCM"] if "1PU+" not in alg else ["A128CBC-HS256"])
+    kind = kind0 if kind0 != "oct" else "oct%d" % ENC[enc][1]
+    first = ctx.choose("first", SEQ_STEPS)
+    second = ctx.choose("second", SEQ_STEPS)
+    third = ctx.deviate("third", [None] + SEQ_STEPS)
+    jwk = scen.key(kind)
+    is_1pu = "1PU" in alg
+    sender_jwk = scen.key(kind, 1) if is_1pu else None
+    pub = A.jkey(jwk, "dict", private=(jwk["kty"] == "oct"))
+    pub2 = A.jkey(scen.key(kind, 2), "dict", private=(jwk["kty"] == "oct"))
+    priv = A.jkey(jwk, "dict")
+    sender_priv = A.jkey(sender_jwk, "dict") if is_1pu else None
+    sender_pub = A.jkey(sender_jwk, "dict", private=False) if is_1pu else None
+    algs = [alg, enc]
+    header = {"alg": alg, "enc": enc}          # the one dict the caller keeps
+    fam = alg.split("+")[0] if alg.startswith(("ECDH", "PBES2")) else (alg if not alg.endswith("GCMKW") else "GCMKW")
+    vs = []
+    steps = [x for x in (first, second, third) if x]
+    direct = alg in ("dir", "ECDH-ES", "ECDH-1PU")
+    for n, step in enumerate(steps):
+        pt = b"plaintext #%d" % n
+        what = f"alg={alg} key={kind} enc={enc}: step {n + 1} of {steps}"
+        if step == "general-2-recipients" and direct:
+            continue
+        if step == "compact":
+            r = call(jwe.encrypt_compact, header, pt, pub, algorithms=algs, sender_key=sender_priv)
+        elif step == "decrypt-then-encrypt-the-returned-object":
+            rec = {"jwk": jwk if jwk["kty"] == "oct" else rjwk.public_of(jwk)}
+            if is_1pu:
+                rec["sender_jwk"] = sender_jwk
+            src = rjwe.encrypt({"alg": alg, "enc": enc}, b"earlier plaintext", [rec], form="flattened", rand=rjwe.Drbg(repr((alg, enc, n)).encode()), param_pos="protected")
+
+            def relay():
+                obj = jwe.decrypt_json(src, priv, algorithms=algs, sender_key=sender_pub)
+                obj.plaintext = pt
+                obj.recipients[0].recipient_key = pub
+                if is_1pu:
+                    obj.recipients[0].sender_key = sender_priv      # decryption left the sender's public key there
+                return jwe.encrypt_json(obj, None, algorithms=algs, sender_key=sender_priv)
+            r = call(relay)
+        else:
+            def to_json():
+                cls = jwe.FlattenedJSONEncryption if step == "flattened" else jwe.GeneralJSONEncryption
+                obj = cls(header, pt)
+                obj.add_recipient(None, pub)
+                if step == "general-2-recipients":
+                    obj.add_recipient(None, pub2)
+                return jwe.encrypt_json(obj, None, algorithms=algs, sender_key=sender_priv)
+            r = call(to_json)
+        if not r.ok:
+            vs.append(viol(f"encryption fails when a header dict / object is used again: {fam}", f"{what}: {r.exc!r}"))
+            continue
+        tag = f"{fam} {ENC[enc][0]} [{step} as use #{n + 1}]"
+        from joserfc.jwk import KeySet
+        dkey = priv if step != "general-2-recipients" else KeySet([A.jkey(jwk, "dict"), A.jkey(scen.key(kind, 2), "dict")])
+        d = scen.jwe_decrypt(copy.deepcopy(r.value), priv if step != "general-2-recipients" else None, algs, sender_key=sender_pub) if step != "general-2-recipients" else None
+        if d is not None and (not d.ok or d.value[0] != pt):
+            vs.append(viol(f"a token made from a header dict / object that was used before does not decrypt: {tag}", f"{what}: {d.exc!r}"))
+        try:
+            if rjwe.decrypt(r.value, jwk, sender_jwk=rjwk.public_of(sender_jwk) if is_1pu else None, index=0)[0] != pt:
+                vs.append(viol(f"a token made from a header dict / object that was used before decrypts to other content (reference): {tag}", what))
+        except RefError as e:
+            vs.append(viol(f"a token made from a header dict / object that was used before is not decryptable by the reference: {tag}", f"{what}: {e!r}"))
+    return Outcome(f"again:{fam}:{'ok' if not vs else 'bad'}", vs, nontrivial=(alg, kind, enc, tuple(steps)))
+
+
 # ------------------------------------------------------------------ E3: two encrypt-then-decrypt round trips at the same time
 T_OPS = [("A128KW", "oct16", 0, "A128GCM", "compact", None), ("A128KW", "oct16", 1, "A128CBC-HS256", "flattened", "DEF"), ("dir", "oct16", 0, "A128GCM", "compact", "DEF"),
          ("A128GCMKW", "oct16", 0, "A128GCM", "general", None), ("PBES2-HS256+A128KW", "oct20", 0, "A128GCM", "compact", None),
@@ -329,4 +408,5 @@ PARTS = [
     Part("multi-recipient", h_multi, bound={"quick": 1, "thorough": 2}, split_depth=2, budget={"quick": 120, "thorough": 1800}),
     _pf,
     Part("def-up-to-the-limit", h_def_limit, split_depth=3),
+    Part("headers-and-objects-used-again", h_again, bound={"quick": 0, "thorough": 1}, split_depth=2),
 ]
